@@ -94,7 +94,7 @@ func (c *wouldApplyContext) wouldApplyGSUB(table tables.GSUBLookup) bool {
 		return len(c.glyphs) == 1 && ok
 
 	case tables.LigatureSubs:
-		if !ok {
+		if !ok || index >= len(data.LigatureSets) { // index is not sanitized for extension lookups
 			return false
 		}
 		ligatureSet := data.LigatureSets[index].Ligatures
@@ -159,6 +159,9 @@ func (c *otApplyContext) applyGSUB(table tables.GSUBLookup) bool {
 		}
 
 	case tables.MultipleSubs:
+		if index >= len(data.Sequences) { // index is not sanitized for extension lookups
+			return false
+		}
 		c.applySubsSequence(data.Sequences[index].SubstituteGlyphIDs)
 
 	case tables.AlternateSubs:
@@ -169,6 +172,9 @@ func (c *otApplyContext) applyGSUB(table tables.GSUBLookup) bool {
 		return c.applySubsAlternate(alternates)
 
 	case tables.LigatureSubs:
+		if index >= len(data.LigatureSets) { // index is not sanitized for extension lookups
+			return false
+		}
 		ligatureSet := data.LigatureSets[index].Ligatures
 		return c.applySubsLigature(ligatureSet)
 
@@ -208,6 +214,9 @@ func (c *otApplyContext) applyGSUB(table tables.GSUBLookup) bool {
 			return false
 		}
 
+		if index >= len(data.SubstituteGlyphIDs) { // index is not sanitized for extension lookups
+			return false
+		}
 		c.buffer.unsafeToBreakFromOutbuffer(startIndex, endIndex)
 		c.setGlyphClass(GID(data.SubstituteGlyphIDs[index]))
 		c.buffer.cur(0).Glyph = GID(data.SubstituteGlyphIDs[index])
